@@ -1,7 +1,8 @@
 """Timeout helper without any genlm import (usable by the engine before workers import the repo).
 
 `watchdog(seconds)` is nestable: an inner watchdog never cancels or extends an outer one (the earliest deadline wins,
-and the outer timer is re-armed with its remaining time when the inner block exits).
+and the outer timer is re-armed with its remaining time when the inner block exits).  Seconds are CPU seconds of the
+process (robust against a loaded machine) with a wall-clock backstop.
 """
 import contextlib
 import signal
@@ -12,30 +13,37 @@ class Timeout(Exception):
     pass
 
 
-_deadlines = []   # stack of (deadline, seconds)
+# Budgets are measured in CPU time of the worker process (ITIMER_PROF), so that a busy machine does not turn slow cases into
+# timeouts; a wall-clock backstop of WALL_FACTOR x the budget (ITIMER_REAL) catches code that blocks without using the CPU.
+WALL_FACTOR = 12
+_deadlines = []   # stack of (cpu deadline, wall deadline, seconds)
 
 
 def _handler(signum, frame):
-    now = time.monotonic()
+    cpu, wall = time.process_time(), time.monotonic()
     # raise for the innermost expired watchdog
-    for d, secs in reversed(_deadlines):
-        if d <= now + 1e-3:
-            raise Timeout(f"no result after {secs}s")
+    for dc, dw, secs in reversed(_deadlines):
+        if dc <= cpu + 1e-3:
+            raise Timeout(f"no result after {secs}s of CPU time")
+        if dw <= wall + 1e-3:
+            raise Timeout(f"no result after {secs * WALL_FACTOR}s of wall-clock time (budget {secs}s CPU)")
     _arm()
 
 
 def _arm():
     if not _deadlines:
+        signal.setitimer(signal.ITIMER_PROF, 0)
         signal.setitimer(signal.ITIMER_REAL, 0)
         return
-    nxt = min(d for d, _ in _deadlines)
-    signal.setitimer(signal.ITIMER_REAL, max(nxt - time.monotonic(), 0.001))
+    signal.setitimer(signal.ITIMER_PROF, max(min(d for d, _, _ in _deadlines) - time.process_time(), 0.001))
+    signal.setitimer(signal.ITIMER_REAL, max(min(d for _, d, _ in _deadlines) - time.monotonic(), 0.001))
 
 
 @contextlib.contextmanager
 def watchdog(seconds):
-    old = signal.signal(signal.SIGALRM, _handler)
-    _deadlines.append((time.monotonic() + seconds, seconds))
+    old_a = signal.signal(signal.SIGALRM, _handler)
+    old_p = signal.signal(signal.SIGPROF, _handler)
+    _deadlines.append((time.process_time() + seconds, time.monotonic() + seconds * WALL_FACTOR, seconds))
     _arm()
     try:
         yield
@@ -43,4 +51,5 @@ def watchdog(seconds):
         _deadlines.pop()
         _arm()
         if not _deadlines:
-            signal.signal(signal.SIGALRM, old if old not in (None, _handler) else signal.SIG_DFL)
+            signal.signal(signal.SIGALRM, old_a if old_a not in (None, _handler) else signal.SIG_DFL)
+            signal.signal(signal.SIGPROF, old_p if old_p not in (None, _handler) else signal.SIG_DFL)
